@@ -318,3 +318,65 @@ def run_case(case, ctx):
         obs.cls('refresh_and_hold')
         obs.nontrivial = True
     return obs
+
+
+# --------------------------------------------------------------------------------------------------
+# byte-level decoder for the coverage-guided stage (vp/fuzz.py): the same case domain as strategy()
+# --------------------------------------------------------------------------------------------------
+def decode_bytes(fdp):
+    def rng(lo, hi):
+        return fdp.ConsumeFloatInRange(lo, hi)
+
+    def pick(xs):
+        return xs[fdp.ConsumeIntInRange(0, len(xs) - 1)]
+
+    def arr():
+        d = pick(['explicit', 'gauss', 'uniform', 'two', 'shift', 'pm', 'const_inexact', 'lead_const', 'const_huge',
+                  'const_exact', 'int_const', 'int_var', 'huge', 'tiny'])
+        seed = fdp.ConsumeIntInRange(0, 2 ** 20)
+        if d == 'explicit':
+            return {'dist': d, 'values': [rng(-1e6, 1e6) for _ in range(fdp.ConsumeIntInRange(1, 8))]}
+        if d in ('gauss', 'uniform', 'two', 'shift', 'pm'):
+            return {'dist': d, 'n': fdp.ConsumeIntInRange(1, 400), 'seed': seed, 'a': rng(-50, 50), 'b': rng(1e-3, 1e3)}
+        if d == 'const_inexact':
+            return {'dist': d, 'n': fdp.ConsumeIntInRange(1, 60), 'a': pick([0.1, 0.3, -0.7, 1e-3, 123.456, 1.1e9, -2.2e-5, 1 / 3])}
+        if d == 'lead_const':
+            return {'dist': d, 'n': fdp.ConsumeIntInRange(1, 60), 'm': fdp.ConsumeIntInRange(1, 40), 'seed': seed,
+                    'a': pick([0.1, 0.3, -0.7, 1.1, 7.7, 123.456])}
+        if d == 'const_huge':
+            return {'dist': d, 'n': fdp.ConsumeIntInRange(1, 60), 'e': fdp.ConsumeIntInRange(150, 305), 'sign': pick([1, -1]), 'm': rng(1.0, 9.99)}
+        if d == 'const_exact':
+            return {'dist': d, 'n': fdp.ConsumeIntInRange(1, 60), 'a': pick([0.0, 1.0, -2.5, 1024.0, 0.125])}
+        if d == 'int_const':
+            return {'dist': d, 'n': fdp.ConsumeIntInRange(1, 60), 'a': fdp.ConsumeIntInRange(-100, 100), 'dtype': pick(['int64', 'int32', 'int8', 'uint8'])}
+        if d == 'int_var':
+            return {'dist': d, 'n': fdp.ConsumeIntInRange(2, 200), 'seed': seed, 'dtype': pick(['int64', 'int32', 'int8', 'uint8'])}
+        return {'dist': d, 'n': fdp.ConsumeIntInRange(2, 100), 'seed': seed, 'e': fdp.ConsumeIntInRange(20, 150)}
+
+    def custom_():
+        k = fdp.ConsumeIntInRange(0, 4)
+        if k <= 1:
+            return None
+        if k == 2:
+            return {'form': 'scalar', 'v': rng(1e-3, 1e3)}
+        if k == 3:
+            return {'form': 'pair', 'v': [rng(1e-3, 1e3), rng(1e-3, 1e3)]}
+        return {'form': '0d', 'v': rng(1e-3, 1e3)}
+    t = fdp.ConsumeIntInRange(0, 3)
+    if t == 0:
+        tmean = 0.0
+    elif t == 1:
+        tmean = float(fdp.ConsumeIntInRange(-3, 3))
+    elif t == 2:
+        tmean = fdp.ConsumeIntInRange(-3, 2) + rng(0.01, 0.49)
+    else:
+        tmean = fdp.ConsumeIntInRange(-3, 2) + rng(0.51, 0.99)
+    calls = [{'re': arr(), 'im': arr(), 'custom': custom_(), 'reset': fdp.ConsumeIntInRange(0, 4) == 4}
+             for _ in range(fdp.ConsumeIntInRange(1, 12))]
+    return {'kind': pick(['real', 'complex', 'free_real', 'free_complex']), 'bits': fdp.ConsumeIntInRange(2, 8), 'tmean': tmean,
+            'fwhm': 32.0 if fdp.ConsumeBool() else rng(0.5, 64.0), 'period': pick([-3, -1, 0, 1, 2, 3, 5, 257, 300]),
+            'period_type': pick(['int', 'int', 'int64']), 'N': pick([fdp.ConsumeIntInRange(1, 60), fdp.ConsumeIntInRange(1, 500), 10000]),
+            'calls': calls}
+
+
+FUZZ_RUNS = 3000       # executions per libFuzzer process in the thorough tier
